@@ -1,44 +1,677 @@
-use adblock::filters::network::{NetworkFilter, NetworkMatchable};
+//! C02 — a network rule's pattern matches a URL exactly when ABP pattern semantics say so.
+//!
+//! Correspondence (model = coq/theories/C02_Model.v):
+//!   A  `anchored_hostname_end` / `get_url_after_anchor` on (filter host, request host) pairs
+//!      built to collide;
+//!   B  `verif_hooks::compile_regex_text` against the model's string translation, and the regex
+//!      crate on that text against the token semantics (the `re_std` premise of the theorems);
+//!   C  `NetworkFilter::parse(line)` fields against the model of the parser (`fields_agree`) and
+//!      against the declarative reading of the text (`text_tie`), the crate's `check_pattern` on
+//!      those fields against the model's `check_pattern` (regex answers supplied from the regex
+//!      crate), and the L0 `ref_matchb (ast_of_text line)` against the crate's answer.
+//! Oracle (independent of Coq): a reference ABP matcher in Rust against `NetworkFilter::matches`
+//! on option-free rules, random and (sweep) exhaustive over short patterns.
+use adblock::filters::network::{NetworkFilter, NetworkFilterMask, NetworkMatchable};
+use adblock::filters::verif::matchers;
 use adblock::regex_manager::RegexManager;
 use adblock::request::Request;
-fn main() {
-    let cases = [
-        ("||ads.net^", "https://ads.net.xads.net/x"),
-        ("||ads.net^", "https://xads.net/x"),
-        ("||ads.net^", "https://ads.net.xads.net.foo.com/x"),
-        ("||t/x", "https://t/x"),
-        ("||s/x", "https://s/x"),
-        ("||s/x", "http://s/x"),
-        ("||ttp/x", "http://ttp/x"),
-        ("||http/x", "http://http/x"),
-        ("||tp.com/x", "http://tp.com/x"),
-        ("||ads.net|", "https://ads.net/foo"),
-        ("|http://|", "http://x.com/foo"),
-        ("||foo.com/x", "https://foo.com@foo.com/x"),
-        ("||a.b/x", "https://a.b:80/x"),
-        ("||a.b:80/x", "https://a.b:80/x"),
-        ("||a.b^x", "https://a.b:80/x"),
-        ("||[^x", "https://[::1]/x"),
-    ];
-    for (rule, url) in cases {
-        let f = NetworkFilter::parse(rule, true, Default::default());
-        let r = Request::new(url, "https://a.com/", "script");
-        match (f, r) {
-            (Ok(f), Ok(r)) => {
-                let mut rm = RegexManager::default();
-                let d = adblock::verif_hooks::dump_filter(&f);
-                println!("{} vs {} (host {} url {}) -> {}   [mask {:x} filter {:?} host {:?}]", rule, url, r.hostname, r.url, f.matches(&r, &mut rm), d.mask, d.filter, d.hostname);
+use implrun::*;
+use serde_json::{json, Value};
+
+// ------------------------------------------------------------------ reference ABP matcher (L0)
+#[derive(Clone, Copy, PartialEq, Debug)]
+enum T {
+    L(u8),
+    Star,
+    Sep,
+}
+fn is_sep(b: u8) -> bool {
+    !(b.is_ascii_alphanumeric() || b == b'_' || b == b'.' || b == b'%' || b == b'-')
+}
+/// `p` matches a prefix of `s` (the whole of `s` if `to_end`)
+fn m(p: &[T], s: &[u8], to_end: bool) -> bool {
+    match p.first() {
+        None => !to_end || s.is_empty(),
+        Some(T::L(c)) => !s.is_empty() && s[0] == *c && m(&p[1..], &s[1..], to_end),
+        Some(T::Sep) => (!s.is_empty() && is_sep(s[0]) && m(&p[1..], &s[1..], to_end)) || (p.len() == 1 && s.is_empty()),
+        Some(T::Star) => (0..=s.len()).any(|i| m(&p[1..], &s[i..], to_end)),
+    }
+}
+fn toks(b: &str) -> Vec<T> {
+    b.bytes()
+        .map(|c| match c {
+            b'*' => T::Star,
+            b'^' => T::Sep,
+            c => T::L(c.to_ascii_lowercase()),
+        })
+        .collect()
+}
+fn search(p: &[T], s: &[u8], la: bool, ra: bool) -> bool {
+    if la {
+        m(p, s, ra)
+    } else {
+        (0..=s.len()).any(|i| m(p, &s[i..], ra))
+    }
+}
+struct Split<'a> {
+    left: u8, // 0 none, 1 '|', 2 '||'
+    right: bool,
+    body: &'a str,
+}
+fn split(rule: &str) -> Split {
+    let mut s = rule;
+    if let Some(x) = s.strip_prefix("@@") {
+        s = x;
+    }
+    let (left, rest) = if let Some(x) = s.strip_prefix("||") {
+        (2, x)
+    } else if let Some(x) = s.strip_prefix('|') {
+        (1, x)
+    } else {
+        (0, s)
+    };
+    let (right, body) = if !rest.is_empty() && rest.ends_with('|') { (true, &rest[..rest.len() - 1]) } else { (false, rest) };
+    Split { left, right, body }
+}
+fn host_cut(body: &str) -> usize {
+    body.find(|c| c == '/' || c == '^' || c == '*').unwrap_or(body.len())
+}
+/// ABP semantics of an option-free rule on (lower-cased url, host, host offset). None: no host.
+fn reference(rule: &str, url_lc: &[u8], host: &[u8], hs: usize) -> Option<bool> {
+    let sp = split(rule);
+    match sp.left {
+        0 => Some(search(&toks(sp.body), url_lc, false, sp.right)),
+        1 => Some(search(&toks(sp.body), url_lc, true, sp.right)),
+        _ => {
+            let cut = host_cut(sp.body);
+            let (h, rest) = (&sp.body[..cut], &sp.body[cut..]);
+            let h = h.to_ascii_lowercase();
+            let h = h.trim_start_matches("www.");
+            if h.is_empty() {
+                return None;
             }
-            (a, b) => println!("{} vs {}: parse {:?} req {:?}", rule, url, a.is_ok(), b.is_ok()),
+            let hb = h.as_bytes();
+            let p = toks(rest);
+            let wildcard = rest.starts_with('*');
+            for o in 0..host.len() {
+                if !(o == 0 || host[o - 1] == b'.' || hb[0] == b'.') {
+                    continue;
+                }
+                if !host[o..].starts_with(hb) {
+                    continue;
+                }
+                let e = o + hb.len();
+                if !(wildcard || hb[hb.len() - 1] == b'.' || e == host.len() || host[e] == b'.') {
+                    continue;
+                }
+                if m(&p, &url_lc[hs + e..], sp.right) {
+                    return Some(true);
+                }
+            }
+            Some(false)
         }
     }
-    for t in ["a^^b", "^^^", "a\\b", "a^", "a^*", "^a", "a*^", "a^\nb", "a.b|c", "a-b", "^", "^^", "a^^"] {
-        for (r, l) in [(false, false), (true, true)] {
-            println!("{:?} r={} l={} => {:?}", t, r, l, adblock::verif_hooks::compile_regex_text(&[t], r, l, false));
+}
+fn is_scheme_pattern(p: &str) -> bool {
+    matches!(p, "ws://" | "http://" | "https://" | "http*://")
+}
+/// the property's degenerate spellings (independent restatement of `nondegenerate_text`)
+fn degenerate(rule: &str) -> bool {
+    let sp = split(rule);
+    let core = sp.body.to_ascii_lowercase();
+    if core.is_empty() || core.contains("^^") || core.contains('\\') || core.contains('\n') || core.contains('$') {
+        return true;
+    }
+    if core.starts_with('*') || core.ends_with('*') {
+        return true;
+    }
+    if core.starts_with('/') && core.ends_with('/') && core.len() > 1 {
+        return true;
+    }
+    match sp.left {
+        1 => is_scheme_pattern(&core),
+        2 => {
+            let cut = host_cut(&core);
+            let h = core[..cut].trim_start_matches("www.");
+            h.is_empty() || (sp.right && (core.ends_with('^') || core.contains('*')))
+        }
+        _ => false,
+    }
+}
+/// F22: right '|' directly after a bare ||host, and |scheme://|
+fn host_right_pipe(rule: &str) -> bool {
+    let sp = split(rule);
+    let core = sp.body.to_ascii_lowercase();
+    sp.right
+        && match sp.left {
+            2 => host_cut(&core) == core.len(),
+            1 => is_scheme_pattern(&core),
+            _ => false,
+        }
+}
+/// `||h^` with the request host ending in `h` in the middle of a label (and anchored earlier)
+fn suffix_mid_label(rule: &str, host: &str) -> bool {
+    let sp = split(rule);
+    if sp.left != 2 {
+        return false;
+    }
+    let core = sp.body.to_ascii_lowercase();
+    let cut = host_cut(&core);
+    let h = core[..cut].trim_start_matches("www.");
+    let rest = &core[cut..];
+    let bare = (rest == "^" && !sp.right) || (rest.is_empty() && sp.right);
+    if !bare || h.is_empty() || !host.ends_with(h) {
+        return false;
+    }
+    let o = host.len() - h.len();
+    !(o == 0 || h.starts_with('.') || host.as_bytes()[o - 1] == b'.')
+}
+
+// ------------------------------------------------------------------ generators
+const FHOSTS: &[&str] = &[
+    "ads.net", "net", "ads", ".net", "ads.", ".ads", "xads.net", "ads.net.ads.net", "s.net", "ds.net", "foo.com", "com", "foo",
+    "o.com", ".com", "foo.", "example.com", "example", "ple.com", "co.uk", "example.co.uk", "a", ".", "", "a.b", "b.example", "x.com",
+    "net.ads", "t", "s", "http", "www.foo.com", "d", "ads.n",
+];
+fn req_host(r: &mut Rng) -> String {
+    let base = r.pick(gen::HOSTS);
+    let h = r.pick(FHOSTS);
+    match r.below(10) {
+        0 => format!("x{}", base),
+        1 => format!("{}.{}", base, base),
+        2 => format!("sub.{}", base),
+        3 if !h.is_empty() => format!("{}.x{}", h.trim_matches('.'), h.trim_matches('.')),
+        4 if !h.is_empty() => format!("x{}.{}", h.trim_matches('.'), h.trim_matches('.')),
+        5 => format!("{}work", base),
+        6 if !h.is_empty() => format!("{}.{}.evil.org", h.trim_matches('.'), base),
+        _ => base.to_string(),
+    }
+}
+fn filter_host(r: &mut Rng, host: &str) -> String {
+    match r.below(8) {
+        0 | 1 => (r.pick(FHOSTS)).to_string(),
+        2 => {
+            // a label-aligned suffix of the request host
+            let idx: Vec<usize> = host.match_indices('.').map(|(i, _)| i).collect();
+            if idx.is_empty() {
+                host.to_string()
+            } else {
+                let i = r.pick(&idx);
+                host[if r.chance(1, 4) { i } else { i + 1 }..].to_string()
+            }
+        }
+        3 => {
+            // an arbitrary infix
+            let a = r.below(host.len().max(1));
+            let b = r.range(a, host.len());
+            host[a..b].to_string()
+        }
+        4 => {
+            // a prefix ending at a label end (or not)
+            let idx: Vec<usize> = host.match_indices('.').map(|(i, _)| i).collect();
+            if idx.is_empty() {
+                host.to_string()
+            } else {
+                let i = r.pick(&idx);
+                host[..if r.chance(1, 4) { i + 1 } else { i }].to_string()
+            }
+        }
+        _ => host.to_string(),
+    }
+}
+const PATHS: &[&str] = &[
+    "", "/", "/ads", "/loads/foo", "/ads/foo/x", "/ad.foo", "/x-ads?x=ads&foo=x", "/ads.net/x", "/foo.com", "/ads:x", "/ads^foo", "/ADS/Foo",
+    "/ads/", ":8080/ads", "/ads.net", "/x/ads.net.x/ads", "/banner.js", "/a1/%20/b_c-d", "/ads*foo", "/?ads", "/#ads",
+];
+fn body(r: &mut Rng) -> String {
+    // pattern grammar of DESIGN.md §3.4, plus degenerate spellings at a low rate
+    let mut s = gen::pattern(r);
+    if r.chance(1, 12) {
+        let extra = r.pick(&["^^", "**", "\\", "^*", "*^", "^|", "*|", "*", "^", "/"]);
+        let at = r.below(s.len() + 1);
+        if s.is_char_boundary(at) {
+            s.insert_str(at, extra);
         }
     }
-    println!("{:?}", adblock::verif_hooks::compile_regex_text(&["a", "b^"], false, true, false));
-    println!("{:?}", adblock::verif_hooks::compile_regex_text(&["a", ""], false, true, false));
-    println!("{:?}", adblock::verif_hooks::compile_regex_text(&[], false, true, false));
-    println!("{:?}", adblock::verif_hooks::compile_regex_text(&["/a\\/b\\:c\\d/"], false, true, true));
+    if r.chance(1, 10) {
+        s = s.to_ascii_uppercase();
+    }
+    s
+}
+fn rule_line(r: &mut Rng) -> String {
+    match r.below(24) {
+        0 => format!("||{}^", r.pick(FHOSTS)),
+        1 => format!("||{}|", r.pick(FHOSTS)),
+        2 => format!("||{}", r.pick(FHOSTS)),
+        3 => format!("||{}*{}", r.pick(gen::HOSTS), r.pick(gen::VOCAB)),
+        4 => format!("||{}*{}^{}", r.pick(gen::HOSTS), r.pick(gen::VOCAB), r.pick(gen::VOCAB)),
+        5 => (r.pick(&["|http://|", "|https://|", "|http://", "|https://", "|ws://", "|http*://", "||http://", "|http://x.com/", "|https://ads.net^"])).to_string(),
+        6 => format!("||www.{}^", r.pick(gen::HOSTS)),
+        7 => format!("||{}/{}|", r.pick(gen::HOSTS), r.pick(gen::VOCAB)),
+        8 => format!("@@||{}^{}", r.pick(gen::HOSTS), r.pick(gen::VOCAB)),
+        9 => format!("/{}\\/[a-z]+{}/", r.pick(gen::VOCAB), r.pick(&["", "\\d", "\\:", ".*"])),
+        _ => body(r),
+    }
+}
+fn url_line(r: &mut Rng, rule: &str) -> String {
+    match r.below(6) {
+        0 | 1 => gen::url_for(r, rule),
+        2 => gen::url(r).replace("ws://", "http://").replace("wss://", "https://"),
+        _ => format!("{}://{}{}", r.pick(&["https", "http"]), req_host(r), r.pick(PATHS)),
+    }
+}
+
+// ------------------------------------------------------------------ implementation runs
+struct Eval {
+    mask: u32,
+    filter: Vec<String>,
+    hostname: Option<String>,
+    url: String,
+    url_lc: String,
+    host: String,
+    hs: Option<usize>,
+    matches: bool,
+    pattern_ok: bool,
+    regex_text: Option<String>,
+    regex_ok: bool,
+    regex_lens: Vec<usize>,
+}
+fn host_start(req: &Request) -> Option<usize> {
+    let i = req.url.find("://")? + 3;
+    if req.url[i..].starts_with(req.hostname.as_str()) && !req.hostname.is_empty() {
+        Some(i)
+    } else {
+        None
+    }
+}
+fn eval(rule: &str, url: &str) -> Result<Eval, String> {
+    let f = NetworkFilter::parse(rule, true, Default::default()).map_err(|e| format!("parse:{:?}", e))?;
+    let req = Request::new(url, "https://source.example.org/", "script").map_err(|_| "request".to_string())?;
+    let d = adblock::verif_hooks::dump_filter(&f);
+    let mut rm = RegexManager::default();
+    let matches = f.matches(&req, &mut rm);
+    let mut rm2 = RegexManager::default();
+    let pattern_ok = adblock::filters::verif::check_pattern(f.mask, f.filter.iter(), f.hostname.as_deref(), 1u64, &req, &mut rm2);
+    let url_lc = adblock::request::verif::url_lower_cased(&req).to_string();
+    let is_rx = f.mask.contains(NetworkFilterMask::IS_REGEX) || f.mask.contains(NetworkFilterMask::IS_COMPLETE_REGEX);
+    let mut regex_text = None;
+    let mut regex_ok = true;
+    let mut regex_lens = vec![];
+    if is_rx && !d.filter.is_empty() {
+        let parts: Vec<&str> = d.filter.iter().map(|s| s.as_str()).collect();
+        let text = adblock::verif_hooks::compile_regex_text(
+            &parts,
+            f.mask.contains(NetworkFilterMask::IS_RIGHT_ANCHOR),
+            f.mask.contains(NetworkFilterMask::IS_LEFT_ANCHOR),
+            f.mask.contains(NetworkFilterMask::IS_COMPLETE_REGEX),
+        );
+        let hay = if f.mask.contains(NetworkFilterMask::MATCH_CASE) { req.url.as_bytes() } else { url_lc.as_bytes() };
+        // the regex crate itself, on the text the crate built (unescaped complete regexes: the
+        // Display text is the pattern handed to the builder)
+        match regex::bytes::RegexBuilder::new(&text).unicode(false).build() {
+            Ok(re) if text != "ERROR" => {
+                for i in 0..=hay.len() {
+                    if re.is_match(&hay[i..]) {
+                        regex_lens.push(hay.len() - i);
+                    }
+                }
+            }
+            _ => regex_ok = false,
+        }
+        regex_text = Some(text);
+    }
+    Ok(Eval {
+        mask: d.mask,
+        filter: d.filter.clone(),
+        hostname: d.hostname.clone(),
+        url: req.url.clone(),
+        url_lc,
+        host: req.hostname.clone(),
+        hs: host_start(&req),
+        matches,
+        pattern_ok,
+        regex_text,
+        regex_ok,
+        regex_lens,
+    })
+}
+fn scheme_ok(mask: u32, url: &str) -> bool {
+    let m = NetworkFilterMask::from_bits_truncate(mask);
+    if url.starts_with("https:") {
+        m.contains(NetworkFilterMask::FROM_HTTPS)
+    } else if url.starts_with("http:") {
+        m.contains(NetworkFilterMask::FROM_HTTP)
+    } else {
+        true
+    }
+}
+fn coq_filter(e: &Eval) -> String {
+    match e.filter.len() {
+        0 => "None".to_string(),
+        _ => format!("(Some {})", hxs(&e.filter[0])),
+    }
+}
+fn coq_req(e: &Eval) -> String {
+    format!("{{| r_url := {}; r_host := {} |}}", hxs(&e.url), hxs(&e.host))
+}
+
+/// One oracle comparison; returns true when the pair was evaluated.
+fn oracle(sm: &mut Summary, stats: &mut std::collections::BTreeMap<String, u64>, rule: &str, url: &str, e: &Eval) {
+    let Some(hs) = e.hs else {
+        *stats.entry("oracle_skipped_no_host_offset".into()).or_insert(0) += 1;
+        return;
+    };
+    if rule.contains('$') || !rule.is_ascii() || !e.url.is_ascii() {
+        return;
+    }
+    let Some(want0) = reference(rule, e.url_lc.as_bytes(), e.host.as_bytes(), hs) else { return };
+    // option-free rule, script request: the options part only restricts the scheme (|http:// forms)
+    let want = want0 && scheme_ok(e.mask, &e.url);
+    sm.oracle_evaluations += 1;
+    if e.matches == want {
+        return;
+    }
+    let replay = json!({"rule": rule, "url": url});
+    let what = format!("rule {:?} on {:?}: NetworkFilter::matches = {}, ABP semantics = {}", rule, e.url, e.matches, want);
+    if host_right_pipe(rule) {
+        sm.failure(Some("F22_host_right_pipe"), &what, replay);
+    } else if degenerate(rule) {
+        *stats.entry("oracle_degenerate_disagreements".into()).or_insert(0) += 1;
+    } else if suffix_mid_label(rule, &e.host) {
+        sm.failure(Some("C02_suffix_mid_label"), &what, replay);
+    } else if e.url_lc.find(e.host.as_str()) != Some(hs) && split(rule).left == 2 {
+        sm.failure(Some("C02_host_in_url_prefix"), &what, replay);
+    } else {
+        sm.failure(None, &what, replay);
+    }
+}
+
+fn sweep(sm: &mut Summary, stats: &mut std::collections::BTreeMap<String, u64>, maxlen: usize) {
+    let alpha = [b'a', b'b', b'/', b'.', b'*', b'^'];
+    let mut bodies: Vec<String> = vec![];
+    let mut cur: Vec<Vec<u8>> = vec![vec![]];
+    for _ in 0..maxlen {
+        let mut next = vec![];
+        for b in &cur {
+            for c in alpha {
+                let mut n = b.clone();
+                n.push(c);
+                bodies.push(String::from_utf8(n.clone()).unwrap());
+                next.push(n);
+            }
+        }
+        cur = next;
+    }
+    let hosts = ["a.b", "b.a.b", "ab.b", "a", "b", "ba.b", "a.b.a", "b.ab", "a.bb", "aa.b.ab"];
+    let paths = ["", "/", "/a", "/a/b", "/b.a", "/a.b/a", "/ab", "/a?b", "/ba/", "/a.b", ":8/a", "/A/B", "/b/a.b/b", "/a^b", "/a*b", "/b//a"];
+    let mut reqs = vec![];
+    for sch in ["https", "http"] {
+        for h in hosts {
+            for p in paths {
+                let u = format!("{}://{}{}", sch, h, p);
+                if let Ok(r) = Request::new(&u, "https://source.example.org/", "script") {
+                    let lc = adblock::request::verif::url_lower_cased(&r).to_string();
+                    reqs.push((u, r, lc));
+                }
+            }
+        }
+    }
+    let mut rules = 0u64;
+    for l in ["", "|", "||"] {
+        for b in &bodies {
+            for rt in ["", "|"] {
+                let rule = format!("{}{}{}", l, b, rt);
+                let Ok(f) = NetworkFilter::parse(&rule, true, Default::default()) else { continue };
+                rules += 1;
+                let deg = degenerate(&rule);
+                let f22 = host_right_pipe(&rule);
+                if deg && !f22 {
+                    continue;
+                }
+                for (u, r, lc) in &reqs {
+                    let Some(hs) = host_start(r) else { continue };
+                    let Some(want) = reference(&rule, lc.as_bytes(), r.hostname.as_bytes(), hs) else { continue };
+                    let mut rm = RegexManager::default();
+                    let got = f.matches(r, &mut rm);
+                    sm.oracle_evaluations += 1;
+                    if got == want {
+                        continue;
+                    }
+                    let what = format!("sweep: rule {:?} on {:?}: matches = {}, ABP semantics = {}", rule, u, got, want);
+                    let replay = json!({"rule": rule, "url": u});
+                    if f22 {
+                        sm.failure(Some("F22_host_right_pipe"), &what, replay);
+                    } else if suffix_mid_label(&rule, &r.hostname) {
+                        sm.failure(Some("C02_suffix_mid_label"), &what, replay);
+                    } else {
+                        sm.failure(None, &what, replay);
+                    }
+                }
+            }
+        }
+    }
+    stats.insert("sweep_rules".into(), rules);
+    stats.insert("sweep_requests".into(), reqs.len() as u64);
+}
+
+fn replay(v: &Value, path: &std::path::Path) -> i32 {
+    let rp = &v["replay"];
+    let rule = rp["rule"].as_str().unwrap_or("");
+    let url = rp["url"].as_str().unwrap_or("");
+    match eval(rule, url) {
+        Err(e) => {
+            println!("rule {:?} url {:?}: not evaluable ({})", rule, url, e);
+            0
+        }
+        Ok(e) => {
+            let want = e.hs.and_then(|hs| reference(rule, e.url_lc.as_bytes(), e.host.as_bytes(), hs)).map(|w| w && scheme_ok(e.mask, &e.url));
+            println!(
+                "rule {:?} url {:?} host {:?}: mask {:#x} filter {:?} hostname {:?}; matches = {}, ABP semantics = {:?}; F22 class {}, suffix-mid-label class {}, degenerate {}",
+                rule, e.url, e.host, e.mask, e.filter, e.hostname, e.matches, want, host_right_pipe(rule), suffix_mid_label(rule, &e.host), degenerate(rule)
+            );
+            if want.is_some() && want != Some(e.matches) {
+                println!("VIOLATION property=C02 replay={}", path.display());
+                1
+            } else {
+                0
+            }
+        }
+    }
+}
+
+fn main() {
+    let a = args();
+    if let Some(p) = &a.replay {
+        let v: Value = serde_json::from_str(&std::fs::read_to_string(p).unwrap()).unwrap();
+        std::process::exit(replay(&v, p));
+    }
+    let mut r = Rng::new(a.seed);
+    let mut cs = Cases::new(&a.out, "C02_Model");
+    let mut sm = Summary::default();
+    let mut ostats: std::collections::BTreeMap<String, u64> = Default::default();
+    sm.rule = "A: (filter host, request host) pairs built to collide (label-aligned suffixes/prefixes, infixes, leading/trailing dots, repeated hosts) x wildcard x at_hostname_end; non-trivial = the filter host occurs in the request host. B: filter texts from the pattern grammar incl. degenerate spellings x anchors; non-trivial = contains '^', '*' or an escaped character. C: option-free rule lines (grammar of DESIGN.md 3.4 + ||host^, ||host|, ||host*x, |scheme:// forms, /re/) x URLs built from the rule or from the host universe; non-trivial = the crate's check_pattern returned true or the rule is hostname-anchored with an occurrence of its host in the request host".into();
+
+    // known finding witnesses (kept in every run so that the classes stay exercised)
+    for (rule, url) in [
+        ("||ads.net|", "https://foo.com.ads.net/ad.foo"),
+        ("|http://|", "http://x.com/foo"),
+        ("||ads.net^", "https://ads.net.xads.net/x"),
+        ("||t/x", "https://t/x"),
+    ] {
+        if let Ok(e) = eval(rule, url) {
+            oracle(&mut sm, &mut ostats, rule, url, &e);
+        }
+    }
+
+    // ---------------- A: hostname anchoring
+    let n_a = 450 * a.scale;
+    for _ in 0..n_a {
+        let host = req_host(&mut r);
+        let fh = filter_host(&mut r, &host);
+        let w = r.chance(1, 4);
+        let e = r.chance(1, 3);
+        let got = matchers::anchored_hostname_end(&fh, &host, w, e);
+        let expr = format!(
+            "onat_eqb (anchored_hostname_end {} {} {} {}) {}",
+            hxs(&fh), hxs(&host), cbool(w), cbool(e), copt(&got, |k| cnat(*k))
+        );
+        let occ = !fh.is_empty() && host.contains(&fh);
+        cs.stat(if got.is_some() { "A_anchored" } else if occ { "A_occurs_not_anchored" } else { "A_no_occurrence" });
+        if !fh.is_empty() && host.matches(&fh).count() > 1 {
+            cs.stat("A_multiple_occurrences");
+        }
+        cs.case(expr, json!({"what": "anchored_hostname_end", "filter_hostname": fh, "hostname": host, "wildcard": w, "at_hostname_end": e, "impl": got}), occ);
+        // get_url_after_anchor on a URL carrying that host
+        let url = format!("{}://{}{}", r.pick(&["https", "http"]), host, r.pick(PATHS)).to_ascii_lowercase();
+        let ae = match got {
+            Some(k) if r.chance(3, 4) => k,
+            _ => r.below(host.len() + 1),
+        };
+        let (u2, h2) = (url.clone(), host.clone());
+        if let Ok(after) = catch(move || matchers::get_url_after_anchor(&u2, &h2, ae).to_string()) {
+            let expr = format!("str_eqb (get_url_after_anchor {} {} {}) {}", hxs(&url), hxs(&host), cnat(ae), hxs(&after));
+            cs.case(expr, json!({"what": "get_url_after_anchor", "url": url, "hostname": host, "anchor_end": ae, "impl": after}), ae > 0);
+        } else {
+            cs.stat("A_after_anchor_panicked");
+        }
+    }
+
+    // ---------------- B: compile_regex text and the regex crate on it
+    let n_b = 350 * a.scale;
+    for _ in 0..n_b {
+        let k = if r.chance(1, 8) { r.range(2, 3) } else { 1 };
+        let mut parts: Vec<String> = vec![];
+        for _ in 0..k {
+            let mut t = split(&body(&mut r)).body.to_ascii_lowercase();
+            if let Some(x) = t.strip_prefix('|') {
+                t = x.to_string();
+            }
+            if r.chance(1, 30) {
+                t.clear();
+            }
+            parts.push(t);
+        }
+        let la = r.chance(1, 2);
+        let ra = r.chance(1, 3);
+        let refs: Vec<&str> = parts.iter().map(|s| s.as_str()).collect();
+        let text = adblock::verif_hooks::compile_regex_text(&refs, ra, la, false);
+        let expr = format!(
+            "str_eqb (compiled_text (compile_regex {} {} {} false) {}) {}",
+            cstrs(&parts), cbool(ra), cbool(la), cbool(text != "ERROR"), hxs(&text)
+        );
+        let nt = parts.iter().any(|p| p.contains('^') || p.contains('*') || p.contains('.') || p.contains('?'));
+        cs.stat(if text == "ERROR" { "B_regex_rejected" } else { "B_regex_text" });
+        cs.case(expr, json!({"what": "compile_regex_text", "filters": parts, "right": ra, "left": la, "impl": text}), nt);
+        // the premise re_std, monitored: regex crate on the text = token semantics
+        if k == 1 && !parts[0].is_empty() && !parts[0].contains("^^") && !parts[0].contains('\\') && !parts[0].contains('\n') {
+            if let Ok(re) = regex::bytes::RegexBuilder::new(&text).unicode(false).build() {
+                let p = toks(&parts[0]);
+                for _ in 0..6 {
+                    let u = url_line(&mut r, &parts[0]).to_ascii_lowercase();
+                    for i in [0, u.len() / 3, u.len() / 2] {
+                        if !u.is_char_boundary(i) {
+                            continue;
+                        }
+                        let hay = &u.as_bytes()[i..];
+                        sm.oracle_evaluations += 1;
+                        let (got, want) = (re.is_match(hay), search(&p, hay, la, ra));
+                        if got != want {
+                            sm.failure(None, &format!("regex crate on {:?} (from filter {:?}, left {}, right {}) vs token semantics on {:?}: {} vs {}", text, parts[0], la, ra, &u[i..], got, want), json!({"rule": format!("{}{}{}", if la {"|"} else {""}, parts[0], if ra {"|"} else {""}), "url": u}));
+                        }
+                    }
+                }
+            }
+        }
+    }
+    // complete regex unescaping
+    for t in ["/a\\/b\\:c\\d/", "/ads/", "/a", "a/", "//", "/\\/\\//", "/x\\\\:y/", "/"] {
+        for _ in 0..a.scale.min(1) {
+            let text = adblock::verif_hooks::compile_regex_text(&[t], false, false, true);
+            let expr = format!(
+                "str_eqb (compiled_text (compile_regex {} false false true) {}) {}",
+                cstrs(&[t.to_string()]), cbool(text != "ERROR"), hxs(&text)
+            );
+            cs.case(expr, json!({"what": "compile_regex_text(complete)", "filter": t, "impl": text}), true);
+        }
+    }
+
+    // ---------------- C: rules x URLs
+    let n_c = 700 * a.scale;
+    for _ in 0..n_c {
+        let rule = rule_line(&mut r);
+        let url = url_line(&mut r, &rule);
+        if !rule.is_ascii() || !url.is_ascii() || rule.contains('$') {
+            cs.stat("C_skipped_non_ascii_or_dollar");
+            continue;
+        }
+        let e = match eval(&rule, &url) {
+            Ok(e) => e,
+            Err(w) => {
+                cs.stat(&format!("C_not_evaluable_{}", w.split(':').next().unwrap_or("")));
+                continue;
+            }
+        };
+        if e.filter.len() > 1 {
+            continue;
+        }
+        // implementation-side consistency: matches = options (scheme only here) && check_pattern
+        sm.oracle_evaluations += 1;
+        if e.matches != (e.pattern_ok && scheme_ok(e.mask, &e.url)) {
+            sm.failure(None, &format!("matches {} but check_pattern {} and scheme bits {}", e.matches, e.pattern_ok, scheme_ok(e.mask, &e.url)), json!({"rule": rule, "url": url}));
+        }
+        oracle(&mut sm, &mut ostats, &rule, &url, &e);
+        let desc = json!({"rule": rule, "url": e.url, "hostname": e.host, "mask": e.mask, "filter": e.filter, "filter_hostname": e.hostname,
+                          "regex": e.regex_text, "impl_check_pattern": e.pattern_ok, "impl_matches": e.matches});
+        let hn = e.mask & NetworkFilterMask::IS_HOSTNAME_ANCHOR.bits() != 0;
+        let nt = e.pattern_ok || (hn && e.hostname.as_ref().map(|h| !h.is_empty() && e.host.contains(h.as_str())).unwrap_or(false));
+        cs.stat(if e.pattern_ok { "C_pattern_matches" } else { "C_pattern_no_match" });
+        if e.regex_text.is_some() {
+            cs.stat("C_regex_rule");
+        }
+        if hn {
+            cs.stat("C_hostname_anchored");
+        }
+        if degenerate(&rule) {
+            cs.stat("C_degenerate_text");
+        }
+        if host_right_pipe(&rule) {
+            cs.stat("C_f22_text");
+        }
+        let filt = coq_filter(&e);
+        let hst = copt(&e.hostname, |h| hxs(h));
+        // fields against the parser model and the declarative reading of the text
+        let complete = e.mask & NetworkFilterMask::IS_COMPLETE_REGEX.bits() != 0;
+        cs.case(
+            format!("fields_agree {l} {m} {f} {h} && text_tie {l} {m} {f} {h}", l = hxs(&rule), m = cn(e.mask), f = filt, h = hst),
+            json!({"what": "parse fields", "case": desc}),
+            !complete,
+        );
+        // check_pattern on those fields; regex answers from the regex crate (by haystack length)
+        let lens: Vec<String> = e.regex_lens.iter().map(|k| cn(*k)).collect();
+        cs.case(
+            format!(
+                "Bool.eqb (check_pattern (fun _ => {ok}) (fun _ s => len_in s [{lens}]) {m} {fs} {h} {rq}) {got}",
+                ok = cbool(e.regex_ok), lens = lens.join("; "), m = cn(e.mask),
+                fs = clist(&e.filter, |s| hxs(s)), h = hst, rq = coq_req(&e), got = cbool(e.pattern_ok)
+            ),
+            json!({"what": "check_pattern", "case": desc}),
+            nt,
+        );
+        // L0 on the text against the implementation
+        if let Some(hs) = e.hs {
+            cs.case(
+                format!("text_ref_agrees {} {} {} {} {} {} {}", hxs(&rule), cn(e.mask), filt, hst, coq_req(&e), cnat(hs), cbool(e.pattern_ok)),
+                json!({"what": "ref_match(ast_of_text)", "host_offset": hs, "case": desc}),
+                nt && !degenerate(&rule),
+            );
+        }
+    }
+
+    // ---------------- oracle: exhaustive sweep of short patterns over a small alphabet
+    sweep(&mut sm, &mut ostats, if a.tier == "thorough" { 5 } else { 3 });
+    for (k, v) in ostats {
+        cs.stats.insert(k, v);
+    }
+    cs.finish();
+    sm.write(&a.out, &cs);
 }
